@@ -315,7 +315,24 @@ BadAtomicOK ==
                      /\ \E i \in Idx(p) : Changed(p, i)
                      /\ \E j \in Idx(p) : post[p][j] # C(p)[j].new}
 
+\* Implied success.  A wire push without report-status is told nothing; the pusher (C git,
+\* SendPackResult) takes every command as accepted unless the connection fails.  Capabilities that
+\* only concern reporting must not change what is applied: a command that would be reported ok
+\* with report-status (st is the status the server computes whether or not it sends it; for a
+\* recorded execution it is the status the same push received when it was run with
+\* report-status added) leaves the ref holding the requested value.  Commands that would be
+\* reported ng, and pushes whose pack fails, make no claim: the protocol cannot say so.
+BadImpliedSuccess ==
+    {w \in Pairs : LET p == w[1] i == w[2] IN
+        /\ ~IsLocal(p) /\ ~Cap(p, "report-status") /\ pc[p] = "done" /\ unp[p] # "fail"
+        /\ st[p][i] = "ok" /\ post[p][i] # C(p)[i].new}
+
+\* The same requirement over a pair of runs of one push from one server state, with and without
+\* report-status (evaluated by the trace monitor on two real executions): the repository ends the same.
+ReportIndependent(refsA, storeA, refsB, storeB) == refsA = refsB /\ storeA = storeB
+
 OkMeansHolds == BadOkMeansHolds = {}
+ImpliedSuccess == BadImpliedSuccess = {}
 AppliedMeansOk == BadAppliedMeansOk = {}
 StaleUntouched == BadStaleUntouched = {}
 StatusExact == OkMeansHolds /\ AppliedMeansOk /\ StaleUntouched
